@@ -51,13 +51,20 @@ class AstIndex:
             idx = {}
             for n in ast.walk(self.repo.modules[module].tree):
                 if isinstance(n, ast.Call):
-                    idx.setdefault((n.lineno, n.col_offset), n)
+                    idx.setdefault((n.lineno, n.col_offset), []).append(n)
             self._calls[module] = idx
         line, col = span[0], span[1]
+        end_line, end_col = (span[2], span[3]) if len(span) >= 4 else (None, None)
         for dc in (0, 1, -1):
-            c = idx.get((line, col + dc))
-            if c is not None:
-                return c
+            cs = idx.get((line, col + dc))
+            if cs:
+                if len(cs) == 1 or end_col in (None, -1):
+                    return cs[0]
+                # several calls start here (a.b().c()): pick the one with the matching end
+                for c in cs:
+                    if c.end_lineno == end_line and abs((c.end_col_offset or 0) - end_col) <= 1:
+                        return c
+                return min(cs, key=lambda c: (abs((c.end_lineno or 0) - (end_line or 0)), abs((c.end_col_offset or 0) - (end_col or 0))))
         return None
 
 
